@@ -88,6 +88,46 @@ def run_listing(base, opts, drf):
     return [os.path.relpath(p, base) for p in out]
 
 
+def cli_argv(base, opts, tfmt):
+    """`drf ls` arguments that mean the same as lsdrf(**L.lsdrf_kwargs(opts))."""
+    def t(ms):
+        if tfmt == "float":
+            return "%d.%03d" % (ms // 1000, ms % 1000)
+        return L.to_dt(ms).strftime("%Y-%m-%dT%H:%M:%S.") + "%03dZ" % (ms % 1000)
+
+    a = ["ls", "--abs", os.path.join(base, opts["root"])]
+    if opts["recursive"]:
+        a.append("-r")
+    if opts["reverse"]:
+        a.append("-R")
+    if opts["start"] is not None:
+        a += ["-s", t(opts["start"])]
+    if opts["end"] is not None:
+        a += ["-e", t(opts["end"])]
+    # kind flags: an included kind is the default (sometimes spelled out), an excluded one needs its --no flag; the
+    # properties flags are given only when the options set them (None = follow the kind flag)
+    for key, yes, no in (("include_drf", "--drf", "--nodrf"), ("include_dmd", "--dmd", "--nodmd")):
+        if not opts[key]:
+            a.append(no)
+        elif tfmt == "float":
+            a.append(yes)
+    for key, yes, no in (("include_drf_properties", "--drfprops", "--nodrfprops"), ("include_dmd_properties", "--dmdprops", "--nodmdprops")):
+        if opts[key] is not None:
+            a.append(yes if opts[key] else no)
+    return a
+
+
+def run_cli_listing(base, opts, tfmt):
+    import contextlib
+    import io
+    from digital_rf import drf_command
+    van = os.path.join(base, opts["vanish"]) if opts.get("vanish") else None
+    buf = io.StringIO()
+    with _Vanish(van), contextlib.redirect_stdout(buf):
+        drf_command.main(cli_argv(base, opts, tfmt))
+    return [os.path.relpath(p, base) for p in buf.getvalue().splitlines() if p]
+
+
 def judge(tree, opts, got, fail, what=""):
     required, maybe, per_channel = L.expected_listing(tree, opts)
     gs = set(got)
@@ -147,6 +187,17 @@ def run_case(case):
                 fail("exception:%s" % type(e).__name__, "lsdrf raised %s: %s (opts %s)" % (type(e).__name__, e, _o(opts)))
                 continue
             judge(tree, opts, got, fail)
+            if opts.get("cli") and (opts["include_drf"] or opts["include_dmd"]):
+                # the same listing asked for on the command line (drf ls): same files in the same order
+                res.cls("drf-ls-command")
+                try:
+                    got_cli = run_cli_listing(base, opts, opts["cli"])
+                    if got_cli != got:
+                        judge(tree, opts, got_cli, lambda sg, d_: fail("cli-" + sg, d_), "drf ls: ")
+                        fail("cli-differs-from-api", "drf %s printed %s..., lsdrf returned %s... (opts %s)" % (
+                            " ".join(cli_argv("", opts, opts["cli"])[1:]), got_cli[:3], got[:3], _o(opts)))
+                except (Exception, SystemExit) as e:
+                    fail("cli-exception:%s" % type(e).__name__, "drf %s: %s" % (" ".join(cli_argv("", opts, opts["cli"])[1:]), e))
             # reversing changes only the order, never the set (no vanish: both runs see the same tree)
             if not opts.get("vanish"):
                 o2 = dict(opts, reverse=not opts["reverse"])
